@@ -113,11 +113,18 @@ func genC08(e *emitter, tier string, seed uint64) {
 			append(rawPush([]byte("xyz")), 0xa8),                                       // SHA256
 			append(append(rawPush([]byte{9}), rawPush([]byte{5})...), 0x80),            // 9 5 NUM2BIN
 			append(append(rawPush([]byte{0x12, 0x34}), 0x51), 0x98),                    // <1234> 1 LSHIFT
+			append(append(rawPush([]byte{0xf0, 0xf0}), rawPush([]byte{0xff, 0x0f})...), 0x84), // <f0f0> <ff0f> AND
+			append(append(rawPush([]byte{0xf0, 0xf0}), rawPush([]byte{0x0f, 0x01})...), 0x85), // … OR
+			append(append(rawPush([]byte{0xf0, 0xf0}), rawPush([]byte{0xff, 0x0f})...), 0x86), // … XOR
+			append(rawPush([]byte{0x12, 0x34}), 0x83),                                      // <1234> INVERT
 		}
 		dups := [][]byte{{0x76}, {0x51, 0x78, 0x7c, 0x75}, {0x00, 0x79}, {0x76, 0x6b, 0x6c}} // DUP; 1 OVER SWAP DROP; 0 PICK; DUP TOALT FROMALT
 		seconds := []opn{}
 		for _, tail := range [][]byte{[]byte("c"), []byte("dd"), {0x00}, []byte("0123456789abcdef")} {
 			seconds = append(seconds, opn{"7e", append(rawPush(tail), 0x7e)})
+		}
+		for _, b := range []byte{0x84, 0x85, 0x86} { // a second bitwise result of the same length (2-byte makers above)
+			seconds = append(seconds, opn{fmt.Sprintf("%02x", b), append(rawPush([]byte{0xa5, 0x5a}), b)})
 		}
 		seconds = append(seconds, opn{"8b", []byte{0x8b}}, opn{"81", []byte{0x81}}, opn{"83", []byte{0x83}}, opn{"98", []byte{0x51, 0x98}}, opn{"80", append(rawPush([]byte{0x21}), 0x80)})
 		for _, mk := range makers {
